@@ -44,6 +44,9 @@ EXTRA_LAYOUTS = [
     {'A|r%d' % i: list(range(1, 9)) for i in range(1, 5)},
     {'A|r%d' % i: list(range(1, 7)) for i in range(1, 7)},
     {'A|r%d' % i: list(range(i, i + 10)) for i in range(1, 4)},
+    # irregular chains far from configuration 1 (the admissible lag must not depend on absolute numbers)
+    {'A|r1': [1000 + c for c in enlarge(alpha.CFG['irr'], 4)]},
+    {'A|r1': [501 + 2 * c for c in enlarge(alpha.CFG['irr2'], 3)], 'A|r2': [7 + 2 * c for c in enlarge(alpha.CFG['irr'], 2)]},
 ]
 
 
